@@ -89,7 +89,7 @@ PowBox == (IF "btc" \in Modes THEN {PCfg("btc", g, 2, <<3, 262144>>, <<3, 65536>
           \cup (IF "compact" \in Modes THEN {PCfg("compact", 0, 0, <<0, 0>>, <<0, 0>>)} ELSE {})
 Chainy(c) == c.mode \in {"btc", "legacy"}
 MaxLen(c) == 2 * c.gap + ExtraLen
-Deltas(c) == {1, 4 * c.period, 25 * c.period}       \* quarter seconds: near-simultaneous, nominal, very slow
+Deltas(c) == {1, 4 * c.period, 16 * c.period + 4, 25 * c.period}   \* quarter seconds: near-simultaneous, nominal, just beyond the upper clamp (4 x expected + 1 s for gap 2), very slow
 
 Q(ch, h) == IF h = 0 THEN 0 ELSE ch[h].q
 
